@@ -1,0 +1,21 @@
+//go:build verif
+
+package prc
+
+import "time"
+
+// VerifRestartInterval is a read-only accessor for the verification harness in /verif: the delay the
+// configured restart interval answers for the count-th consecutive failed restart (false when no
+// interval is configured: Shared.runtimeError then restarts without delay).
+func (c *SharedConfiguration) VerifRestartInterval(count int) (time.Duration, bool) {
+	if c.restartInterval == nil {
+		return 0, false
+	}
+	return c.restartInterval(count), true
+}
+
+// VerifConsecutiveRestartLimit is a read-only accessor for the verification harness in /verif.
+func (c *SharedConfiguration) VerifConsecutiveRestartLimit() int { return c.consecutiveRestartLimit }
+
+// VerifNewSharedConfiguration returns a configuration with the defaults of newSharedConfiguration.
+func VerifNewSharedConfiguration() *SharedConfiguration { return newSharedConfiguration() }
